@@ -1335,7 +1335,7 @@ fn binary_corpus(tier: Tier) -> Vec<String> {
 fn bin_dir() -> PathBuf {
     match std::env::var("VERIF_REPO_BIN") {
         Ok(p) if !p.is_empty() => PathBuf::from(p),
-        _ => PathBuf::from("/verif/target/repo/release"),
+        _ => crate::common::bin_dir(),
     }
 }
 
